@@ -106,6 +106,21 @@ func (dec *Decoder) ReadInt() (value int) {
 	return int(dec.ReadInt64())
 }
 
+// ReadCount reads the number of elements of a list, map or class. The count comes off the wire:
+// a negative one is an error, and so is, when the whole input is in memory, one that exceeds
+// the bytes that are left (every element takes at least one byte). An invalid count is
+// reported through Error and read as 0.
+func (dec *Decoder) ReadCount() (count int) {
+	count = dec.ReadInt()
+	if count < 0 || (dec.reader == nil && count > dec.tail-dec.head) {
+		if dec.Error == nil {
+			dec.Error = ErrInvalidLength
+		}
+		return 0
+	}
+	return count
+}
+
 // ReadUint reads uint.
 func (dec *Decoder) ReadUint() (value uint) {
 	return uint(dec.ReadUint64())
